@@ -1,8 +1,9 @@
 #!/bin/bash
-# usage: tools/eval_refactors.sh [-j N]   — every behaviour-preserving refactoring in /verif/refactors (produced by independent
+# usage: tools/eval_refactors.sh [-j N] [-f id-regex] [-o out.md]   — every behaviour-preserving refactoring in /verif/refactors (produced by independent
 # sub-agents, suite re-run here) against the checks of the properties its files matter for, on scratch copies of /repo HEAD.
 # Expected: never exit 1 (alarm). exit 2 (contract can no longer be woven) is tolerated and counted. Writes refactors/RESULTS.md.
-V=$(cd "$(dirname "$0")/.." && pwd); J=4; [ "$1" = "-j" ] && J=$2
+V=$(cd "$(dirname "$0")/.." && pwd); J=4; FILTER="^[RST][0-9]"; OUT=$V/refactors/RESULTS.md
+while [ $# -gt 0 ]; do case $1 in -j) J=$2; shift 2;; -f) FILTER=$2; shift 2;; -o) OUT=$2; shift 2;; *) shift;; esac; done
 one() {
   id=$1; props=$2; w=/tmp/er_$id; rm -rf $w; mkdir -p $w/repo
   git -C /repo archive HEAD | tar -x -C $w/repo
@@ -19,7 +20,7 @@ one() {
   rm -rf $w
 }
 export -f one; export V
-props_for() { case $1 in R1-*|S1-*) echo "C03 C08 C11 C12";; R2-*|S2-*) echo "C01 C02 C07 C10";; R3-*|S3-*) echo "C03 C04 C09";; R4-*|S4-*) echo "C01 C09";; esac; }
+props_for() { case $1 in R1-*|S1-*|T1-*) echo "C03 C08 C11 C12";; R2-*|S2-*|T2-*) echo "C01 C02 C07 C10";; R3-*|S3-*|T3-*) echo "C03 C04 C09";; R4-*|S4-*) echo "C01 C09";; T4-*) echo "C03 C04 C07 C11";; esac; }
 { echo "# Behaviour-preserving refactorings vs. the registered checks"; echo; echo "| refactoring | test suite with it | checks (quick tier, Kani off) | first tool message |"; echo "|---|---|---|---|";
-  for d in $(ls $V/refactors | grep "^[RS][0-9]"); do echo "$d $(props_for $d)"; done | xargs -P $J -L 1 bash -c 'one "$0" "${*:1}"' | sort; } > $V/refactors/RESULTS.md
-cat $V/refactors/RESULTS.md
+  for d in $(ls $V/refactors | grep -E "$FILTER"); do echo "$d $(props_for $d)"; done | xargs -P $J -L 1 bash -c 'one "$0" "${*:1}"' | sort; } > $OUT
+cat $OUT
